@@ -10,45 +10,8 @@ From Goat Require Import Model.Client Model.Protocol Model.Server Proofs.ClientB
   Proofs.ProtocolClient Proofs.ServerProofs Proofs.ServerInv Proofs.ServerTrace Proofs.ServerWriter Proofs.ServerProto Proofs.ServerLive
   Model.Sys Proofs.SysLog Proofs.SysProofs Proofs.SysFacts Proofs.SysFacts2 Proofs.SysC01 Proofs.SysC01b Proofs.SysC01d
   Proofs.SysC02 Proofs.SysC02b Proofs.SysC02c Proofs.SysC02e Proofs.SysC02f Proofs.SysC02g Proofs.SysC02h Proofs.SysC02i Proofs.SysC02j
-  Proofs.SysC02k Proofs.SysC02m.
+  Proofs.SysC02k Proofs.SysC02m Proofs.SysCff.
 Open Scope Z_scope.
-
-(* ---------- the client sees no fault ---------- *)
-Definition cff (s : Client.state) : Prop := Client.inbox_failed s = false /\ rerr s = false /\ Client.wfail s = false.
-
-Lemma cff_int s r s' : cff s -> In r (Client.rules s) -> r s = Some s' -> cff s'.
-Proof.
-  intros (A & B & C) Hin H. apply rules_in in Hin. destruct Hin as [->|[->|(c & _ & Hin)]].
-  - unfold r_rl_unblock in H. open_rule H; repeat split; auto.
-  - unfold r_rl_read in H. open_rule H; repeat split; auto; congruence.
-  - simpl in Hin.
-    repeat (destruct Hin as [<-|Hin];
-            [ unfold r_check, r_reg, r_wait, r_wait_ctx, r_unreg, r_loop_read, r_loop_read_ctx, r_loop_hand,
-                     r_loop_hand_ctx, r_loop_exit, r_loop_unreg, r_recv, r_header, r_trailer, r_send in H;
-              open_rule H; try (repeat split; auto; congruence) | ]).
-    all: try destruct Hin.
-Qed.
-
-Lemma cff_ext s a : cff s -> match a with Client.AFailRead | Client.ASetWriteFail _ => False | _ => True end -> cff (Client.ext s a).
-Proof.
-  intros (A & B & C) Ha. destruct a; try contradiction; simpl; unfold with_call;
-    repeat match goal with |- context [match ?x with _ => _ end] => destruct x end; repeat split; auto.
-Qed.
-
-Lemma cff_sys pol ls : forall s, Sys.lrun pol Sys.init ls = Some s -> fault_free ls = true -> cff (cl s).
-Proof.
-  induction ls as [|l ls IH] using rev_ind; intros s H Hff.
-  - inversion H; subst. repeat split.
-  - unfold fault_free in Hff. rewrite forallb_app in Hff. apply andb_prop in Hff. destruct Hff as (Hff & Hl0). simpl in Hl0. rewrite andb_true_r in Hl0.
-    destruct (sys_lrun_snoc _ _ _ _ _ H) as (s1 & H1 & Hl). pose proof (IH _ H1 Hff) as HP.
-    pose proof (lstep_cl _ _ _ _ Hl) as X. destruct l as [x|x| |].
-    + destruct X as (Hc & _ & _). destruct x as [a|n]; simpl in Hc.
-      * inversion Hc. apply cff_ext; auto. destruct a; simpl in Hl0; try discriminate; exact I.
-      * destruct (nth_error (Client.rules (cl s1)) n) as [r|] eqn:E; [|discriminate]. apply nth_error_In in E. eapply cff_int; eauto.
-    + destruct X as (_ & _ & _ & ->). exact HP.
-    + destruct X as (f & rest & _ & _ & -> & _). exact HP.
-    + destruct X as (e & rest & _ & -> & _). apply cff_ext; auto.
-Qed.
 
 (* ---------- every frame of the server carries decodable metadata ---------- *)
 Definition mdok (fr : frame) : Prop := exists t, ehdr (f_env fr) = Some (MdOk t).
